@@ -377,3 +377,26 @@ theorem ax_bigprod_split_entry (f : ℕ → ℝ) (j m : ℕ) (hj : j ≤ m) :
     ∏ i ∈ Finset.range (m + 1), f i = f j * ∏ u ∈ Finset.range m, (if u < j then f u else f (u + 1)) := by
   rw [ax_bigprod_without f j m hj]
   exact (Finset.mul_prod_erase (Finset.range (m + 1)) f (Finset.mem_range.mpr (by omega))).symm
+
+/-! ### G-mode: splitting a sum / product at an index (flattening rules) -/
+theorem ax_bigsum_split_at (f : ℕ → ℝ) (i n : ℕ) (h : i < n) :
+    ∑ t ∈ Finset.range n, f t = ∑ t ∈ Finset.range i, f t + f i + ∑ u ∈ Finset.range (n - i - 1), f (u + i + 1) := by
+  have hn : n = (i + 1) + (n - i - 1) := by omega
+  conv_lhs => rw [hn]
+  rw [Finset.sum_range_add, Finset.sum_range_succ]
+  congr 1
+  apply Finset.sum_congr rfl
+  intro u _
+  congr 1
+  omega
+
+theorem ax_bigprod_split_at (f : ℕ → ℝ) (i n : ℕ) (h : i < n) :
+    ∏ t ∈ Finset.range n, f t = (∏ t ∈ Finset.range i, f t) * f i * ∏ u ∈ Finset.range (n - i - 1), f (u + i + 1) := by
+  have hn : n = (i + 1) + (n - i - 1) := by omega
+  conv_lhs => rw [hn]
+  rw [Finset.prod_range_add, Finset.prod_range_succ]
+  congr 1
+  apply Finset.prod_congr rfl
+  intro u _
+  congr 1
+  omega
